@@ -301,9 +301,14 @@ func c27Run(f []string) string {
 
 // ---- generator
 
-var c27Names = []string{"deploy", "load", "", "a b", "tab\there", "nl\nx", "k=v", "日本", "user", "query", "x,y", "ü:1", "*"}
+// event / query names are free-form: colons, '=', spaces and the empty name included
+var c27Names = []string{"deploy", "load", "", "a b", "tab\there", "nl\nx", "k=v", "日本", "user", "query", "x,y", "ü:1", "*",
+	"deploy:prod", "a:b:c", ":", "load:", ":x", " ", "user:deploy", "a=b:c"}
 var c27FilterItems = []string{"member-join", "member-leave", "member-failed", "member-update", "member-reap", "user", "query", "*",
-	"user:deploy", "query:load", "user:", "query:", "user:a b", "query:日本", "user:load", "query:deploy", "member-bogus", "", "user:k", "USER", "query:x"}
+	"user:deploy", "query:load", "user:", "query:", "user:a b", "query:日本", "user:load", "query:deploy", "member-bogus", "", "user:k", "USER", "query:x",
+	// the name is everything after the first colon: further colons, '=', spaces belong to it
+	"user:deploy:prod", "query:deploy:prod", "user:a:b:c", "query:a:b:c", "user::", "query::x", "user:load:", "query:ü:1",
+	"user: ", "query:a b", "user:user:deploy", "query:query", "member-join:x", "user:k=v", "query:a=b:c", ":user", "user :x"}
 // tag NAMES are free-form strings too: tabs, newlines, '=' and ',' in them must be escaped in the
 // member line exactly like in names, roles and values
 var c27TagKeys = []string{"role", "dc", "a-b", "ünï", "x.y", "9lives", "k=v", "sp ace", "ıſ", "UP", "",
@@ -433,6 +438,9 @@ func c27Gen(rng *rand.Rand, tier string) []Case {
 		{"run " + hexs("member-join,member-join") + ",! " + hexs("node\t1") + " " + c30ShowTags(map[string]string{"role": "a\tb", "a-b": "1"}) + " mj/" + hexs("m\n1") + "~10.0.0.1~" + c30ShowTags(map[string]string{"role": "r\n", "t": "a,b=c"}) + "+" + hexs("m2") + "~nil~_ 10 1 0 1024"},
 		{"run " + hexs("member-update") + " " + hexs("n") + " " + c30ShowTags(map[string]string{"rack\tid": "r1", "k=v": "x"}) + " mu/" + hexs("web") + "~1.2.3.4~" + c30ShowTags(map[string]string{"role": "we\tb", "rack\tid": "r1"}) + "+" + hexs("db1") + "~1.2.3.5~" + c30ShowTags(map[string]string{"note\nx": "y", "a,b": "c=d"}) + " 0 1 0 1024"},
 		{"run " + hexs("*") + " " + hexs("n") + " _ mf/" + hexs("m") + "~nil~" + c30ShowTags(map[string]string{"\n": "v"}) + "+" + hexs("m2") + "~9.9.9.9~" + c30ShowTags(map[string]string{"\t": "", "e=q\t,\n": "\t"}) + " 5 2 0 1024"},
+		{"run " + hexs("user:deploy:prod") + "," + hexs("user:deploy") + "," + hexs("user:deploy:prod,query:deploy:prod") + " " + hexs("n") + " _ u/" + hexs("deploy:prod") + "/3/" + hexs("p") + " 0 1 0 1024"},
+		{"run " + hexs("user:deploy:prod") + "," + hexs("user:deploy") + " " + hexs("n") + " _ u/" + hexs("deploy") + "/4/- 0 1 0 1024"},
+		{"run " + hexs("query:a:b:c") + "," + hexs("query:a") + "," + hexs("query::") + " " + hexs("n") + " _ q/" + hexs("a:b:c") + "/- 3 1 0 1024"},
 		{"run " + hexs("user:deploy") + "," + hexs("user") + " " + hexs("n") + " _ u/" + hexs("deploy") + "/18446744073709551615/" + hexs("no newline") + " 0 1 0 1024"},
 		{"run " + hexs("user") + " " + hexs("n") + " _ u/" + hexs("a\x00b") + "/7/" + hexs("p") + " 0 1 0 1024"},
 	}
@@ -443,6 +451,7 @@ func c27Gen(rng *rand.Rand, tier string) []Case {
 		e, kind := c27GenEvent(rng)
 		ns := 1 + rng.Intn(3)
 		var specs []string
+		named := false
 		for j := 0; j < ns; j++ {
 			if rng.Intn(6) == 0 {
 				specs = append(specs, "!")
@@ -450,7 +459,20 @@ func c27Gen(rng *rand.Rand, tier string) []Case {
 				fl := c27Filter(rng)
 				if rng.Intn(2) == 0 { // make a match likely
 					fl = map[string]string{"member": "*", "user": "user", "query": "query"}[kind]
+					if kind != "member" && rng.Intn(2) == 0 {
+						// user:NAME / query:NAME with the event's own name (when a filter can express it)
+						if nm := string(unhex(strings.Split(e, "/")[1])); nm != "" && !strings.ContainsAny(nm, ",=") {
+							fl = kind + ":" + nm
+							if rng.Intn(4) == 0 && strings.Contains(nm, ":") {
+								fl = kind + ":" + nm[:strings.Index(nm, ":")] // the name cut at its colon must NOT match
+							}
+							named = true
+						}
+					}
 				}
+				// the spec is `<filter>=<script>` and splits at the first '=': a filter of a real run
+				// cannot contain one (such filters are exercised by the pure `parse` cases only)
+				fl = strings.ReplaceAll(fl, "=", "-")
 				specs = append(specs, hexs(fl))
 			}
 		}
@@ -472,6 +494,12 @@ func c27Gen(rng *rand.Rand, tier string) []Case {
 		}
 		self := c27Names[rng.Intn(len(c27Names))] + "-self"
 		tags := []string{"run", kind}
+		if named {
+			tags = append(tags, "named-filter-for-event")
+		}
+		if kind != "member" && strings.Contains(string(unhex(strings.Split(e, "/")[1])), ":") {
+			tags = append(tags, "event-name-with-colon")
+		}
 		if c27AwkwardTagName(e) {
 			tags = append(tags, "tag-name-with-tab-or-newline")
 		}
@@ -494,7 +522,7 @@ func c27Gen(rng *rand.Rand, tier string) []Case {
 func init() {
 	register(&Prop{
 		ID:   "C27",
-		Rule: "pure: ParseEventScript on generated specs and EventFilter.Invoke on generated filters x events (names with tabs, newlines, '=', non-ASCII, empty); runs: the real ScriptEventHandler.HandleEvent with 1-3 /bin/sh scripts recording environment and stdin, member events with 0-3 members (member names, roles, tag NAMES and tag values with tabs, newlines, '=', ',' and non-ASCII, nil address), user events, real queries on a real node (payload with/without trailing newline, empty, binary), script output 0 / small / around 1024 / around 8192 bytes, non-zero exit; non-trivial = pure case, or a run whose script prints output",
+		Rule: "pure: ParseEventScript on generated specs and EventFilter.Invoke on generated filters x events (event/query names and filter names with colons, '=', spaces, tabs, newlines, non-ASCII, empty); runs: the real ScriptEventHandler.HandleEvent with 1-3 /bin/sh scripts recording environment and stdin, member events with 0-3 members (member names, roles, tag NAMES and tag values with tabs, newlines, '=', ',' and non-ASCII, nil address), user events, real queries on a real node (payload with/without trailing newline, empty, binary), script output 0 / small / around 1024 / around 8192 bytes, non-zero exit; non-trivial = pure case, or a run whose script prints output",
 		Gen:  c27Gen,
 		Exec: c27Exec,
 	})
